@@ -241,6 +241,12 @@ def run_P(ck):
     ck.assume('composition of the per-iteration facts into "exactly the change points in increasing order" is by induction on the iterations (argued in the module docstring)')
     ck.trust('PyVC encoding of the Python subset (DESIGN.md 3.2)')
     ck.trust('z3 5.1 (quantifier instantiation with the stated patterns)')
+    from vlib.pyvc.crosscheck import crosscheck
+    hist = [0, 0, 1, 1, 1, 2, 5, 5, 9]
+    g = lambda l: hist[l]          # noqa
+    eq = lambda a, b: a == b       # noqa
+    crosscheck(ck, lambda head, last, pred: S.find_state_change(head, last, g, eq, pred), [(8, 0, 0), (8, 2, 1), (6, 5, 2)], 'find_state_change')
+    crosscheck(ck, lambda head, last, step: list(S.find_state_changes(head, last, g, eq, step)), [(8, 0, 1), (8, 0, 3), (8, 0, 60), (7, 2, 2)], 'find_state_changes')
     for name, mk in (('find_state_change', h_find_state_change), ('walk_state_change_interval', h_walk), ('find_state_change_intervals', h_intervals)):
         eng = Engine()
         run_harness(ck, eng, mk(), name)
